@@ -99,7 +99,13 @@ func VerifC06Shared() {
 	fld := &dst.Field{Names: []*dst.Ident{{Name: "a"}}, Type: &dst.Ident{Name: "int"}}
 	var first, second dst.Node
 	var mk func(second dst.Node) dst.Node
-	switch vfChoice("shape", 6) {
+	qualified := false
+	switch vfChoice("shape", 7) {
+	case 6: // a package-qualified identifier (restored as a selector by an import-managing restorer)
+		qualified = true
+		qid := &dst.Ident{Name: vfOpaque("q", "Q"), Path: "a"}
+		first = qid
+		mk = func(s dst.Node) dst.Node { return &dst.BinaryExpr{X: qid, Op: 12, Y: s.(dst.Expr)} }
 	case 0: // same expression as both operands
 		first = id
 		mk = func(s dst.Node) dst.Node { return &dst.BinaryExpr{X: id, Op: 12, Y: s.(dst.Expr)} }
@@ -131,11 +137,20 @@ func VerifC06Shared() {
 	second = first
 	shared := mk(second)
 	r := vfRestorer()
+	if qualified {
+		calls := 0
+		r.Resolver, r.Path = vfResolver{names: map[string]string{"a": "a"}, failAt: -1, calls: &calls}, vfLocal
+		r.packageNames["a"] = vfBytes("pkgname", 1, "ab")
+	}
 	vfAssert(vfExpectPanic(func() { r.restoreNode(shared, "", "", "", false) }), "shared-node-rejected")
 
 	cl := dst.Clone(first)
 	ok := mk(cl)
 	r2 := vfRestorer()
+	if qualified {
+		r2.Resolver, r2.Path = r.Resolver, vfLocal
+		r2.packageNames["a"] = "a"
+	}
 	panicked := vfExpectPanic(func() { r2.restoreNode(ok, "", "", "", false) })
 	vfAssert(!panicked, "cloned-node-accepted")
 	_, has1 := r2.Ast.Nodes[first]
